@@ -54,11 +54,19 @@ def bar_rules(ctx: Ctx, explain: bool = False) -> None:
     ppqn = Sym.atom("PPQN")
 
     compares = []
+
+    def _is_duration(x):
+        return isinstance(x, ast.Call) and call_method(x)[1] in ("get_sequence_duration_relation", "get_sequence_duration")
+    # a temporary holding the measured duration counts as the duration
+    dur_names = {s_.targets[0].id for s_ in walk_local(fi.node) if isinstance(s_, ast.Assign) and len(s_.targets) == 1 and isinstance(s_.targets[0], ast.Name)
+                 and any(_is_duration(x) for x in ast.walk(s_.value))}
+
+    def _mentions_duration(e):
+        return any(_is_duration(x) or (isinstance(x, ast.Name) and x.id in dur_names) for x in ast.walk(e))
     for n in walk_local(fi.node):
         if isinstance(n, ast.Compare) and len(n.ops) == 1 and isinstance(n.ops[0], (ast.Gt, ast.Lt, ast.GtE, ast.LtE)):
             l, r = n.left, n.comparators[0]
-            if any(isinstance(x, ast.Call) and call_method(x)[1] in ("get_sequence_duration_relation", "get_sequence_duration")
-                   for x in ast.walk(n)):
+            if _mentions_duration(n):
                 compares.append(n)
     ctx.floor("capacity comparisons in Bar.__init__", len(compares), 1)
     reject_seen = False
@@ -73,7 +81,7 @@ def bar_rules(ctx: Ctx, explain: bool = False) -> None:
                   message=f"left side is measured in {show(a)}, right side in {show(b)}: the test compares quantities of different "
                           f"units (a sequence of N quarters is compared with N*PPQN)", file=fi.file, node=c)
         # value of the capacity side
-        dur_left = any(isinstance(x, ast.Call) for x in ast.walk(c.left))
+        dur_left = _mentions_duration(c.left)
         cap_side = c.comparators[0] if dur_left else c.left
         dur_side = c.left if dur_left else c.comparators[0]
         dur_unit = a if dur_left else b
@@ -126,7 +134,7 @@ def bar_rules(ctx: Ctx, explain: bool = False) -> None:
             if t not in compares:
                 wrong.append(f"`{short(t, 60)}` {'holds' if holds else 'does not hold'}")
                 continue
-            dl = any(isinstance(x, ast.Call) for x in ast.walk(t.left))
+            dl = _mentions_duration(t.left)
             below = isinstance(t.ops[0], (ast.Lt, ast.LtE)) if dl else isinstance(t.ops[0], (ast.Gt, ast.GtE))
             above = isinstance(t.ops[0], (ast.Gt, ast.GtE)) if dl else isinstance(t.ops[0], (ast.Lt, ast.LtE))
             if not ((holds and below) or (not holds and above)):
